@@ -190,8 +190,38 @@ func runC06(c *fw.Ctx) {
 						waiting = bz
 					}
 				}
+				// an exact-fee record of another owner is DELIVERED in the block whose EndBlock executes the
+				// update (whatever a decorator remembers per block height is then stale for the CheckTx
+				// calls that follow at the same height)
+				if ow2 := ac[2]; true {
+					var dm sdk.Msg
+					if w := pickOwnedWrk(obs, ow2, r); w != nil && r.Bool() {
+						dm = &wrkchaintypes.MsgRecordWrkChainBlock{WrkchainId: w.WrkchainId, Height: w.Lastblock + 1, BlockHash: g.hash(64), Owner: ow2.Addr.String()}
+					} else if b := pickOwnedBeacon(obs, ow2, r); b != nil {
+						dm = &beacontypes.MsgRecordBeaconTimestamp{BeaconId: b.BeaconId, Hash: g.hash(64), SubmitTime: uint64(L.Time.Unix()), Owner: ow2.Addr.String()}
+					}
+					if dm != nil {
+						dw, _, _ := fo.expected([]sdk.Msg{dm})
+						e.GovExecBlockTxs = []*TxPlan{{Spec: lab.TxSpec{Msgs: []sdk.Msg{dm}, Signers: []lab.Acct{ow2}, Fee: dw, Gas: 2_000_000}, Desc: "delivered in the block that executes the fee update: " + descMsgs([]sdk.Msg{dm})}}
+					}
+				}
 				if e.Gov("fees", upd) {
 					c.Count("fee_updates_applied", 1)
+					// straight after the update: a fresh CheckTx of a record priced with the OLD fee
+					if wm != nil && e.Halted == "" {
+						now := feeOracle{e.Last.WrkParams, e.Last.BeaconParams}
+						if nw, _, _ := now.expected([]sdk.Msg{wm}); !nw.IsEqual(wwant) {
+							if bz2, err := L.BuildTx(wspec); err == nil && L.Check(bz2).Code == 0 {
+								e.BeginBlock(time.Second)
+								resp := e.DeliverRaw(&TxPlan{Spec: wspec, Desc: "old-fee record checked right after the update: " + descMsgs(wspec.Msgs)}, bz2)
+								e.EndBlock()
+								if resp.Code == 0 {
+									c.Violate("admitted-with-wrong-fee", "stale-after-fee-update", "right after a governance fee update a record offering the previous fee %s was admitted by CheckTx and executed; the current parameters price it at %s", wwant, nw)
+								}
+								waiting = nil
+							}
+						}
+					}
 					if waiting != nil && e.Halted == "" {
 						now := feeOracle{e.Last.WrkParams, e.Last.BeaconParams}
 						nwant, _, _ := now.expected([]sdk.Msg{wm})
